@@ -30,7 +30,7 @@ Proof. vm_compute. reflexivity. Qed.
     mutex, speak about all locks a forked child can inherit in the locked state. *)
 Lemma all_locks_covered_ok : all_locks_covered tsrm_fns globals = true.
 Proof. vm_compute. reflexivity. Qed.
-Lemma locking_confined_ok : locking_confined tsrm_fns constructors fn_refs = true.
+Lemma locking_confined_ok : locking_confined tsrm_fns constructors inlined_helpers fn_refs = true.
 Proof. vm_compute. reflexivity. Qed.
 Theorem C10_all_locks_covered : forall g, In g globals -> is_lock_object g = true ->
   g_name g = "snoopy_tsrm_threadRepo_mutex"%string /\ covered_locks tsrm_fns = ["snoopy_tsrm_threadRepo_mutex"%string].
@@ -49,9 +49,10 @@ Proof. intros t d. simpl. rewrite Nat.eqb_refl. auto. Qed.
 Lemma libc_calls_have_no_hidden_lock : libc_calls_reentrant fn_refs (reachable_fns fn_refs data_refs) = true.
 Proof. vm_compute. reflexivity. Qed.
 
-(** localtime_r() and its relatives take libc's timezone lock, which fork() does not reset: no function a wrapped call can reach calls one
-    of them except through a guard that holds the repository mutex for the duration of the libc call (snoopy_tsrm_localtime_r, shape pinned by
-    [skeleton_ok]); the fork handlers hold that mutex across fork(), so no thread is inside the libc function on the library's behalf then *)
+(** localtime_r(), strftime() (mktime for %s, tzset for %Z) and their relatives take libc's timezone lock, setutent()/getutline_r()/endutent()
+    libc's utmp lock; fork() resets neither.  No function a wrapped call can reach calls one of them except through a guard that holds the
+    repository mutex for the duration of the libc call(s) (snoopy_tsrm_localtime_r, snoopy_tsrm_strftime, snoopy_tsrm_getutline; shapes pinned
+    by [skeleton_ok]); the fork handlers hold that mutex across fork(), so no thread is inside such a libc function on the library's behalf then *)
 Lemma timezone_lock_callers_guarded : tz_unguarded tsrm_fns fn_refs (reachable_fns fn_refs data_refs) = [].
 Proof. vm_compute. reflexivity. Qed.
 
